@@ -32,8 +32,8 @@ def fault_kinds_fired(res):
         if rec[0] == "op" and rec[7]:
             f = rec[7]
             k = f[0]
-            if k == "err":
-                k = "err"
+            if k == "err" and len(f) > 2:
+                k = "disk-full(sticky)"
             elif k == "partial":
                 k = "partial+crash" if f[2] == "crash" else "partial+err"
             out[k] = out.get(k, 0) + 1
